@@ -94,7 +94,8 @@ class EntryPoint(Harness):
         for d, times in groups:
             # the same probe may be issued again by a later detection round (discover falls back to probing every
             # family): a run of identical transmissions must consist of whole probes of retries+1 transmissions
-            if len(times) % (R + 1) != 0:
+            if len(times) % (R + 1) != 0 or (self.entry == "connect" and len(times) != R + 1):
+                # connect(family=...) issues every probe once: exactly retries+1 transmissions
                 fail("a probe was not transmitted retries+1 times", f"{d.hex()}: {len(times)} transmissions, retries={R}")
             for c0 in range(0, len(times), R + 1):
                 chunk = times[c0:c0 + R + 1]
